@@ -24,7 +24,7 @@ import (
 
 var sigModes = []string{"", "verify", "verify_log", "none"}
 var kinds = []string{"resolvable", "signer-unknown", "signature-wrong"}
-var intakes = []string{"provision-crl_urls", "provision-crl_files", "first-cdp-active", "first-cdp-background", "periodic-refresh", "refresh-after-restart", "restart-alone"}
+var intakes = []string{"provision-crl_urls", "provision-crl_files", "first-cdp-active", "first-cdp-background", "cdp-retry-active", "cdp-retry-background", "periodic-refresh", "refresh-after-restart", "restart-alone"}
 var backends = []string{"memory", "disk"}
 
 func modeName(m string) string {
@@ -74,7 +74,7 @@ func (e *cellEnv) build(kind string, base []crlgen.Entry, extra *big.Int) []byte
 
 func main() {
 	run := report.New("C16", "exploration")
-	run.Rule("cells = signature mode{unset,verify,verify_log,none} x CRL{signer resolvable, signer unknown, signature wrong} x intake{configured crl_urls at provision, configured crl_files at provision, first CDP fetch active, first CDP fetch background, periodic refresh of an accepted CRL, refresh after restart, restart alone} x backend (168 cells, all run); each cell is a stepped history observed through strict probes / listed-serial probes / the Provision error; oracle: unset == verify; verify => in force iff resolvable and valid, on every path and after restart; verify_log/none => every parseable CRL in force, Provision succeeds, refresh brings new entries into force; non-trivial = cell whose decisive probe was reached; distinct = cell")
+	run.Rule("cells = signature mode{unset,verify,verify_log,none} x CRL{signer resolvable, signer unknown, signature wrong} x intake{configured crl_urls at provision, configured crl_files at provision, first CDP fetch active, first CDP fetch background, CDP fetch retried after a failed first download (active / background), periodic refresh of an accepted CRL, refresh after restart, restart alone} x backend (216 cells, all run); each cell is a stepped history observed through strict probes / listed-serial probes / the Provision error; oracle: unset == verify; verify => in force iff resolvable and valid, on every path and after restart; verify_log/none => every parseable CRL in force, Provision succeeds, refresh brings new entries into force; non-trivial = cell whose decisive probe was reached; distinct = cell")
 	run.Assume("'signer unknown' = CRL under the issuer's name whose AKI names and whose signature is made by a sibling key that is neither in the chain nor configured; 'signature wrong' = last signature bit flipped", "unavailable origin = HTTP 500")
 	scratch, _ := report.Scratch("C16")
 	sut.QuietStderr(filepath.Join(scratch, "stderr.log"))
@@ -229,19 +229,42 @@ func (e *cellEnv) runCell(run *report.Run, mode, kind, intake, backend, desc, ke
 		}
 		return true
 
-	case "first-cdp-active", "first-cdp-background":
-		if intake == "first-cdp-background" {
+	case "first-cdp-active", "first-cdp-background", "cdp-retry-active", "cdp-retry-background":
+		if strings.HasSuffix(intake, "-background") {
 			opts.Fetch = "background"
 		}
+		retry := strings.HasPrefix(intake, "cdp-retry")
 		w.CRL.Set(path, origin.Good(e.build(kind, base, nil)))
+		if retry {
+			// the first attempt to load the location fails for an unrelated reason; the CRL is taken
+			// in by a retry (update pass, or the next handshake in active mode)
+			if e.n%2 == 0 {
+				w.CRL.Set(path, origin.Garbage())
+			} else {
+				w.CRL.Set(path, origin.Status(500, []byte("<html>err</html>")))
+			}
+		}
 		chk, err := l2.Start(opts)
 		if err != nil {
 			return viol("provision-failed", err.Error())
 		}
 		defer chk.Stop()
 		_, _ = chk.Ask(leaf(unl, true)) // first contact (background: triggers the load and waits for it)
+		if retry {
+			w.CRL.Set(path, origin.Good(e.build(kind, base, nil)))
+			chk.Refresh()
+		}
 		_, perr := chk.Ask(leaf(unl, true))
 		inForce := perr == nil
+		if !acc && !inForce {
+			// a rejected first load is retried by later passes and handshakes: the policy holds there too
+			for i := 0; i < 2; i++ {
+				chk.Refresh()
+				if _, perr2 := chk.Ask(leaf(unl, true)); perr2 == nil {
+					return viol("unacceptable-in-force-after-retry", fmt.Sprintf("CDP CRL was rejected at first but came into force at retry %d", i+1))
+				}
+			}
+		}
 		if acc && !inForce {
 			return viol("acceptable-not-in-force", "CDP CRL acceptable under the mode but the strict probe is denied: "+perr.Error())
 		}
